@@ -16,7 +16,7 @@ HEADER = ("From PF Require Import Gen.Tables Lib.ListX Model.Ragged Model.Mapper
           "Model.ConverterState.\nOpen Scope Z_scope.")
 MODEL_TARGETS = ["Model/ConverterState.vo"]
 SHARD = 17
-RULE = ("materialized datasets over all nine stypes (stub embedders / tokenizer) x 1-4 converter calls on row "
+RULE = ("(targets may carry missing cells and selections may consist of unlabeled rows only; 35 % of the cases keep 1-2 OTHER datasets over the same column names but different data alive, materialized before or between the first dataset's calls, and use their converters too) materialized datasets over all nine stypes (stub embedders / tokenizer) x 1-4 converter calls on row "
         "multisets of the source frame (whole frame, singletons, repeats, reorders, arbitrary multisets; rows carrying "
         "unseen categories / unseen multicategorical tokens injected into a copy; frames without the target column) x "
         "a fresh dataset materialized with the first one's col_stats; distinct = distinct (stype multiset incl. "
@@ -50,7 +50,20 @@ PARENT = {"text_embedded": "embedding", "image_embedded": "embedding"}
 # ------------------------------------------------------------------ generation
 def gen_rows(rng, n, desc=None):
     kind = rng.wpick([(2, "all"), (3, "single"), (3, "repeat"), (3, "reorder"), (4, "multiset"), (1, "slice"),
-                      (2, "missing")])
+                      (2, "missing"), (5, "unlabeled")])
+    if kind == "unlabeled":
+        # only rows whose target cell is missing: the frame HAS the target column, y must be the dataset's y there
+        tcol = next((c for c in (desc or {}).get("cols", []) if c["name"] == (desc or {}).get("target")), None)
+        pos = [i for i, x in enumerate(tcol["cells"]) if x is None] if tcol else []
+        if not pos:
+            kind = "single"
+        else:
+            m = rng.pick(["one", "one", "repeat", "several"])
+            if m == "one":
+                return kind, [rng.pick(pos)]
+            if m == "repeat":
+                return kind, [rng.pick(pos)] * rng.randint(2, 3)
+            return kind, [rng.pick(pos) for _ in range(rng.randint(2, 4))]
     if kind == "missing":
         # only rows in which some category column is missing (the selected column is then entirely missing)
         cands = [c for c in (desc or {}).get("cols", []) if c["stype"] in ("categorical", "multicategorical")
@@ -82,7 +95,14 @@ def gen_injections(rng, desc, rows):
     """Unseen values placed into the selected copy: list of {"col", "pos" (position in the selection), "kind"}."""
     out = []
     cands = [c for c in desc["cols"] if c["stype"] in ("categorical", "multicategorical") and c["name"] != desc["target"]]
-    if not cands or not rng.chance(0.55):
+    tcol = next((c for c in desc["cols"] if c["name"] == desc["target"]), None)
+    with_target = tcol is not None and tcol["stype"] == "categorical" and rng.chance(0.4)
+    if with_target:
+        # labels never seen at materialization in the TARGET column of the converted frame: y must be -1 there
+        # (alone or, below, together with unseen values in feature columns)
+        for pos in sorted(set(rng.randrange(len(rows)) for _ in range(rng.randint(1, 2)))):
+            out.append({"col": tcol["name"], "pos": pos, "kind": "unseen"})
+    if not cands or not rng.chance(0.3 if with_target else 0.55):
         return out
     for _ in range(rng.randint(1, 3)):
         c = rng.pick(cands)
@@ -102,20 +122,51 @@ def gen_case(rng, tier):
                        ["text_embedded", "image_embedded", "numerical", "categorical"],
                        ["categorical", "multicategorical", "timestamp", "sequence_numerical", "text_tokenized"],
                        ["text_embedded", "categorical", "multicategorical"]])
-    desc = G.gen_frame(rng, stypes=st)
-    n = desc["n"]
+    desc = G.gen_frame(rng, stypes=st, target_missing=0.7)
+    case = {"frame": desc, "calls": gen_calls(rng, desc, rng.randint(1, 4)), "supplied": rng.chance(0.5)}
+    if rng.chance(0.35):
+        # other datasets alive in the same process over the SAME column names and stypes but different data, hence
+        # different fitted statistics / separators / formats; materialized before or between the first dataset's calls
+        case["others"] = []
+        for _ in range(rng.wpick([(3, 1), (1, 2)])):
+            od = sibling_frame(rng, desc)
+            case["others"].append({"frame": od, "calls": gen_calls(rng, od, rng.randint(1, 2), malformed=False),
+                                   "when": rng.pick(["before", "before", "mid"])})
+    return case
+
+
+def gen_calls(rng, desc, k, malformed=True):
     calls = []
-    for _ in range(rng.randint(1, 4)):
-        kind, rows = gen_rows(rng, n, desc)
-        call = {"kind": kind, "rows": rows, "inject": gen_injections(rng, desc, rows),
-                "drop_target": bool(desc["target"] and rng.chance(0.3))}
-        if rng.chance(0.04):
+    for _ in range(k):
+        kind, rows = gen_rows(rng, desc["n"], desc)
+        call = {"kind": kind, "rows": rows, "inject": gen_injections(rng, desc, rows)}
+        call["drop_target"] = bool(desc["target"] and kind != "unlabeled" and rng.chance(0.3)
+                                   and not any(i["col"] == desc["target"] for i in call["inject"]))
+        if malformed and rng.chance(0.04):
             # malformed stream: the frame lacks a feature column -- the call must raise and leave the converter usable
             feats = [c["name"] for c in desc["cols"] if c["name"] != desc["target"]]
             call["drop_feature"] = rng.pick(feats)
             call["inject"] = [i for i in call["inject"] if i["col"] != call["drop_feature"]]
         calls.append(call)
-    return {"frame": desc, "calls": calls, "supplied": rng.chance(0.5)}
+    return calls
+
+
+def sibling_frame(rng, desc):
+    """A frame with the same column names, stypes and target as `desc`, but freshly drawn cells (other categories and
+    frequencies, other separators / time formats / embedding widths) and its own number of rows."""
+    n = rng.randint(1, 6)
+    miss_p = rng.pick([0.0, 0.1, 0.3])
+    cols = []
+    for c in desc["cols"]:
+        is_t = c["name"] == desc["target"]
+        nc = G.gen_col(rng, c["name"], c["stype"], n, 0.0 if is_t else miss_p, for_target=is_t)
+        if is_t and n >= 3:
+            for i in range(2, n):
+                if rng.chance(0.3):
+                    nc["cells"][i] = None
+        cols.append(nc)
+    return {"n": n, "index": rng.pick(["range", "offset", "dup"]), "cols": cols, "target": desc["target"],
+            "col_order": list(desc["col_order"])}
 
 
 def generate(rng, tier):
@@ -173,22 +224,15 @@ def parse_all(desc, df):
     return {c["name"]: M.parse_timestamps(df, c) for c in desc["cols"] if c["stype"] == "timestamp" and c["name"] in df}
 
 
-def run(case):
+def run_calls(case, ds, calls, after_first=None):
+    """Run the converter calls of one dataset; `after_first` is invoked after the first call."""
     desc = case["frame"]
-    try:
-        ds, _ = G.build_dataset(desc)
-        ds.materialize()
-    except Exception as ex:
-        return {"ok": False, "stage": "materialize", "exc": C.exc_name(ex), "msg": str(ex)[:300], "tb": C.fmt_exc()}
-    out = {"ok": True, "base": G.read_tf(ds.tensor_frame), "stats": G.read_stats(ds.col_stats), "calls": [],
-           "parsed": parse_all(desc, ds.df)}
-    frames = []
-    for call in case["calls"]:
+    recs, frames = [], []
+    for k, call in enumerate(calls):
         try:
             df2 = build_call_df(case, call, ds.df)
         except Exception as ex:
-            out["calls"].append({"ok": False, "stage": "harness", "exc": C.exc_name(ex), "msg": str(ex)[:300],
-                                 "tb": C.fmt_exc()})
+            recs.append({"ok": False, "stage": "harness", "exc": C.exc_name(ex), "msg": str(ex)[:300], "tb": C.fmt_exc()})
             frames.append(None)
             continue
         try:
@@ -205,15 +249,68 @@ def run(case):
                     rec["sel"] = G.read_tf(ds.tensor_frame[list(call["rows"])])
                 except Exception as ex:
                     rec["sel"] = {"exc": C.exc_name(ex), "msg": str(ex)[:200]}
-            out["calls"].append(rec)
+            recs.append(rec)
         except Exception as ex:
             frames.append(None)
-            out["calls"].append({"ok": False, "stage": "convert", "exc": C.exc_name(ex), "msg": str(ex)[:300],
-                                 "tb": C.fmt_exc(), "parsed": parsed})
+            recs.append({"ok": False, "stage": "convert", "exc": C.exc_name(ex), "msg": str(ex)[:300],
+                         "tb": C.fmt_exc(), "parsed": parsed})
+        if k == 0 and after_first is not None:
+            after_first()
+    return recs, frames
+
+
+def materialize_other(o):
+    try:
+        ds, _ = G.build_dataset(o["frame"])
+        ds.materialize()
+    except Exception as ex:
+        return None, {"ok": False, "stage": "materialize", "exc": C.exc_name(ex), "msg": str(ex)[:300], "tb": C.fmt_exc()}
+    return ds, {"ok": True, "base": G.read_tf(ds.tensor_frame), "stats": G.read_stats(ds.col_stats),
+                "parsed": parse_all(o["frame"], ds.df), "calls": []}
+
+
+def run(case):
+    desc = case["frame"]
+    try:
+        ds, _ = G.build_dataset(desc)
+        ds.materialize()
+    except Exception as ex:
+        return {"ok": False, "stage": "materialize", "exc": C.exc_name(ex), "msg": str(ex)[:300], "tb": C.fmt_exc()}
+    out = {"ok": True, "base": G.read_tf(ds.tensor_frame), "stats": G.read_stats(ds.col_stats), "calls": [],
+           "parsed": parse_all(desc, ds.df)}
+    others = case.get("others") or []
+    odss, oobs = [None] * len(others), [None] * len(others)
+    for j, o in enumerate(others):
+        if o["when"] == "before":
+            odss[j], oobs[j] = materialize_other(o)
+
+    def mid():
+        for j, o in enumerate(others):
+            if o["when"] == "mid":
+                odss[j], oobs[j] = materialize_other(o)
+    out["calls"], frames = run_calls(case, ds, case["calls"], after_first=mid)
+    mid_done = all(x is not None for x in oobs)
+    if not mid_done:
+        mid()
     # names of every frame returned earlier, read again after all calls (they share the converter's table)
     for rec, tf in zip(out["calls"], frames):
         if tf is not None:
             rec["names_after"] = {k.value: list(v) for k, v in tf.col_names_dict.items()}
+    # the other datasets' converters, then the first dataset's own frame once more
+    for j, o in enumerate(others):
+        if odss[j] is not None:
+            oobs[j]["calls"], ofr = run_calls(o, odss[j], o["calls"])
+            for rec, tf in zip(oobs[j]["calls"], ofr):
+                if tf is not None:
+                    rec["names_after"] = {k.value: list(v) for k, v in tf.col_names_dict.items()}
+    if others:
+        out["others"] = oobs
+        try:
+            tf = ds.convert_to_tensor_frame(ds.df)
+            out["recheck"] = {"ok": True, "tf": G.read_tf(tf), "parsed": parse_all(desc, ds.df),
+                              "names_after": {k.value: list(v) for k, v in tf.col_names_dict.items()}}
+        except Exception as ex:
+            out["recheck"] = {"ok": False, "stage": "convert", "exc": C.exc_name(ex), "msg": str(ex)[:300], "tb": C.fmt_exc()}
     try:
         out["base_after"] = G.read_tf(ds.tensor_frame)
     except Exception as ex:
@@ -267,6 +364,10 @@ def check_call(case, obs, k):
             return dict(key="harness-call", what=f"{tag}: harness could not build the frame: {rec['exc']} {rec['msg']}",
                         tb=rec.get("tb"))
         kinds = sorted({i["kind"] for i in call["inject"]})
+        if any(i["col"] == desc["target"] for i in call["inject"]):
+            return dict(key=f"convert-raises:{rec['exc']}:unseen-target",
+                        what=f"{tag}: the converter raised {rec['exc']} on a frame whose target column carries a label never "
+                             f"seen at materialization (must be encoded as -1): {rec['msg']}", tb=rec.get("tb"))
         return dict(key=f"convert-raises:{rec['exc']}" + (":unseen" if kinds else ""),
                     what=f"{tag}: the converter raised {rec['exc']}: {rec['msg']}", tb=rec.get("tb"))
     tfj = rec["tf"]
@@ -322,7 +423,11 @@ def check_call(case, obs, k):
         if tfj["y"] is not None:
             return dict(key="y-without-target", what=f"{tag}: frame has no target column but y = {tfj['y']}")
     else:
-        exp = [base["y"][r] for r in call["rows"]]
+        exp = [-1 if (desc["target"], p) in inj else base["y"][r] for p, r in enumerate(call["rows"])]
+        if any((desc["target"], p) in inj for p in range(len(call["rows"]))) and tfj["y"] != exp:
+            return dict(key="unseen:target", what=f"{tag}: the target column carries labels never seen at materialization "
+                        f"at positions {[p for p in range(len(call['rows'])) if (desc['target'], p) in inj]}; y must be "
+                        f"{exp} (-1 there), got {tfj['y']}", expected=exp, observed=tfj["y"])
         if tfj["y"] != exp:
             return dict(key="y-rows", what=f"{tag}: y = {tfj['y']}, the dataset's y at these rows is {exp}",
                         expected=exp, observed=tfj["y"])
@@ -343,6 +448,26 @@ def oracle(case, obs):
         if f is not None:
             f["call"] = k
             return f
+    whole = {"kind": "all", "rows": list(range(case["frame"]["n"])), "inject": [], "drop_target": False}
+    if "recheck" in obs:
+        f = check_call(dict(case, calls=[whole]), dict(obs, calls=[obs["recheck"]]), 0)
+        if f is not None:
+            f["key"] = "after-other-datasets:" + f["key"]
+            f["what"] = "after other datasets over the same column names were materialized and used: " + f["what"]
+            return f
+    for j, o in enumerate(case.get("others") or []):
+        oo = obs["others"][j]
+        if not oo["ok"]:
+            return dict(key=f"other-materialize-raises:{oo['exc']}", what=f"materializing dataset #{j + 2} raised "
+                        f"{oo['exc']}: {oo['msg']}", tb=oo.get("tb"))
+        if (o["frame"]["target"] is None) != (oo["base"]["y"] is None):
+            return dict(key="other:dataset-y", what=f"dataset #{j + 2}: y iff target column violated")
+        for k in range(len(o["calls"])):
+            f = check_call(o, oo, k)
+            if f is not None:
+                f["key"] = "other:" + f["key"]
+                f["what"] = f"dataset #{j + 2} (same column names as the first, other data): " + f["what"]
+                return f
     if obs["base_after"] != obs["base"]:
         return dict(key="dataset-frame-changed", what="the dataset's own TensorFrame changed after converter calls",
                     expected=obs["base"].get("names"), observed=(obs["base_after"] or {}).get("names"))
@@ -365,6 +490,18 @@ def oracle(case, obs):
 
 def shrink(case):
     calls = case["calls"]
+    others = case.get("others") or []
+    for j in range(len(others)):
+        rest = others[:j] + others[j + 1:]
+        c2 = dict(case)
+        if rest:
+            c2["others"] = rest
+        else:
+            c2.pop("others")
+        yield c2
+    for j, o in enumerate(others):
+        for k in range(len(o["calls"])):
+            yield dict(case, others=others[:j] + [dict(o, calls=o["calls"][:k] + o["calls"][k + 1:])] + others[j + 1:])
     if case["supplied"]:
         yield dict(case, supplied=False)
     for k in range(len(calls)):
@@ -413,7 +550,8 @@ def nontrivial_sig(case, obs):
     desc = case["frame"]
     sts = sorted(c["stype"] for c in desc["cols"] if c["name"] != desc["target"])
     tk = None if desc["target"] is None else next(c["stype"] for c in desc["cols"] if c["name"] == desc["target"])
-    return json.dumps([sts, tk, [call_sig(c) for c in case["calls"]], case["supplied"]])
+    oth = [(o["when"], o["frame"]["n"], [call_sig(c) for c in o["calls"]]) for o in case.get("others") or []]
+    return json.dumps([sts, tk, [call_sig(c) for c in case["calls"]], case["supplied"], oth])
 
 
 def stats(cases, obss):
@@ -432,6 +570,12 @@ def stats(cases, obss):
         if sts & {"text_embedded", "image_embedded"}:
             d["frames_with_embedding_merge"] += 1
         d["supplied"] += int(c["supplied"])
+        d["cases_with_other_datasets"] = d.get("cases_with_other_datasets", 0) + int(bool(c.get("others")))
+        d["other_datasets_mid_session"] = d.get("other_datasets_mid_session", 0) + \
+            sum(1 for x in c.get("others") or [] if x["when"] == "mid")
+        tcol = next((x for x in desc["cols"] if x["name"] == desc["target"]), None)
+        d["targets_with_missing_cells"] = d.get("targets_with_missing_cells", 0) + \
+            int(bool(tcol and any(v is None for v in tcol["cells"])))
         d["calls_per_case"][len(c["calls"])] = d["calls_per_case"].get(len(c["calls"]), 0) + 1
         if not (o or {}).get("ok"):
             d["materialize_raised"] += 1
@@ -440,6 +584,18 @@ def stats(cases, obss):
             d["calls"] += 1
             d["call_kinds"][call["kind"]] = d["call_kinds"].get(call["kind"], 0) + 1
             d["calls_with_unseen"] += int(bool(call["inject"]))
+            tinj = [i for i in call["inject"] if i["col"] == desc["target"]]
+            if tinj:
+                tcol = next(x for x in desc["cols"] if x["name"] == desc["target"])
+                ncls = len({v for v in tcol["cells"] if v is not None})
+                d.setdefault("target_unseen_calls", {"binary": 0, "multiclass": 0, "alone": 0, "with_features": 0,
+                                                     "single_row": 0, "repeated_rows": 0, "whole_frame": 0})
+                t = d["target_unseen_calls"]
+                t["binary" if ncls == 2 else "multiclass"] += 1
+                t["alone" if len(tinj) == len(call["inject"]) else "with_features"] += 1
+                t["single_row"] += int(len(call["rows"]) == 1)
+                t["repeated_rows"] += int(len(set(call["rows"])) < len(call["rows"]))
+                t["whole_frame"] += int(call["kind"] == "all")
             d["calls_without_target"] += int(call["drop_target"])
             d["malformed_calls"] = d.get("malformed_calls", 0) + int(bool(call.get("drop_feature")))
             for i in call["inject"]:
@@ -461,7 +617,13 @@ def sanity(cases, obss):
     for st in ENUM:
         if d["stypes"].get(st, 0) == 0:
             probs.append(f"stype {st} never drawn")
-    for k in ("all", "single", "repeat", "reorder", "multiset", "slice", "missing"):
+    for k in ("cases_with_other_datasets", "other_datasets_mid_session", "targets_with_missing_cells"):
+        if d.get(k, 0) == 0:
+            probs.append(f"{k} = 0")
+    for k, v in (d.get("target_unseen_calls") or {"never": 0}).items():
+        if v == 0:
+            probs.append(f"unseen label in the target column: {k} never drawn")
+    for k in ("all", "single", "repeat", "reorder", "multiset", "slice", "missing", "unlabeled"):
         if d["call_kinds"].get(k, 0) == 0:
             probs.append(f"row selection kind {k} never drawn")
     for k in ("unseen", "only_unseen", "mixed", "two_unseen"):
@@ -605,6 +767,21 @@ def coq_stats(case, stats_json, by, drop_stub_emb):
 
 
 def coq_term(case, obs):
+    t = coq_terms(case, obs, True)
+    if t is None or t == "false":
+        return t
+    for o, oo in zip(case.get("others") or [], obs.get("others") or []):
+        # the other datasets' converters are followed by the model too (each is its own converter)
+        t2 = coq_terms(dict(o, supplied=False), oo, False)
+        if t2 is None:
+            return None
+        if t2 == "false":
+            return "false"
+        t = t + " && " + t2
+    return "(" + t + ")"
+
+
+def coq_terms(case, obs, full):
     if not obs.get("ok") or any(not rec["ok"] and not call.get("drop_feature")
                                 for call, rec in zip(case["calls"], obs["calls"])):
         return None
@@ -635,7 +812,7 @@ def coq_term(case, obs):
         if o is None:
             return "false"
         items.append(f"({df}, Some {o})")
-        if sel_term is None and plain(call) and not call["drop_target"] and isinstance(rec.get("sel"), dict) \
+        if full and sel_term is None and plain(call) and not call["drop_target"] and isinstance(rec.get("sel"), dict) \
                 and "exc" not in rec["sel"] and rec["parsed"] == {k: [v[r] for r in call["rows"]]
                                                                   for k, v in obs["parsed"].items()}:
             # df.iloc[idx] / tensor_frame[idx] in the model (only when the timestamp black box parsed the selected
@@ -644,7 +821,14 @@ def coq_term(case, obs):
             if so is None:
                 return "false"
             sel_term = (f"selection_ok {cts} {target} {fits} {whole_df} {M.plist(call['rows'], M.nat)} {df} {so}")
+    if obs.get("recheck", {}).get("ok"):
+        o = coq_obs(case, whole, obs["recheck"]["tf"], obs["base"], by)
+        if o is None:
+            return "false"
+        items.append(f"({whole_df}, Some {o})")
     terms = [f"session_ok {cts} {target} {fits} {M.plist(items)}"]
+    if not full:
+        return " && ".join(terms)
     if sel_term:
         terms.append(sel_term)
     # materialize end to end: recomputed (None) and, when drawn, with the supplied statistics
@@ -660,4 +844,4 @@ def coq_term(case, obs):
             return "false"
         st2 = coq_stats(case, obs["supplied"]["stats"], by, False)
         terms.append(f"materialize_ok {cts} {seps} {target} [] {widths} (Some {st_obs}) {whole_df} {st2} {o2}")
-    return "(" + " && ".join(terms) + ")"
+    return " && ".join(terms)
